@@ -125,8 +125,11 @@ def fragment_form(rng, big=False):
             if rng.random() < 0.1 and tops:
                 r["label"] = "Sec ${%s}" % rng.choice(tops)
             r.pop("repeat_count", None)
-            if kind == "repeat" and rng.random() < 0.3:
-                r["repeat_count"] = rng.choice(["3", "2 + 1", expr(nm), "${%s}" % rng.choice(tops)] if tops else ["3"])
+            if kind == "repeat" and rng.random() < 0.45:
+                t_ = rng.choice(tops) if tops else None
+                r["repeat_count"] = rng.choice(
+                    ["3", "2 + 1", expr(nm), "${%s}" % t_, "${%s} + 1" % t_, "${%s} * ${%s}" % (t_, rng.choice(tops)),
+                     "count-selected(${%s})" % t_, "2 * ${%s}" % t_] if tops else ["3"])
             continue
         if base == "calculate":
             r["calculation"] = expr(nm)
@@ -170,6 +173,30 @@ def fragment_form(rng, big=False):
             c["label"] = rng.choice(ADV_LABELS)
     if rng.random() < 0.1 and form.get("choices"):
         form["choices"].append({"list_name": "spare", "name": "s", "label": "Spare"})
+    # settings: custom attributes of the primary-instance root (`attribute::x`; prefixed ones with the always-declared
+    # prefixes; local names that clash with id / version exercise minidom's eviction by local name)
+    if rng.random() < 0.3:
+        st = (form.get("settings") or [{}])[0]
+        for _ in range(rng.randint(1, 3)):
+            k = rng.choice(["foo", "abc", "orx:id", "odk:id", "jr:id", "version", "orx:version", "odk:prefix", "ex_1", "id",
+                            "jr:foo", "odk:foo", "foo"])
+            st["attribute::" + k] = rng.choice(["bar", "1", "a b", "x<y", "é"])
+        if rng.random() < 0.2:
+            st = dict(reversed(list(st.items())))
+        form["settings"] = [st]
+    # disabled rows (skipped before anything else) and audit rows (meta/audit), also disabled audits
+    if rng.random() < 0.25:
+        for r_ in rows:
+            structural = r_.get("type", "").startswith(("begin", "end"))
+            if rng.random() < (0.03 if structural else 0.3):
+                r_["disabled"] = rng.choice(["yes", "no", "true", "TRUE", "false", "Yes"])
+    if rng.random() < 0.15:
+        a = {"type": "audit", "name": "audit"}
+        if rng.random() < 0.4:
+            a["disabled"] = rng.choice(["yes", "no", "true"])
+        rows.insert(rng.randint(0, len(rows)), a)
+        if rng.random() < 0.1:
+            rows.append({"type": "audit", "name": "audit"})
     # a share of forms that leave the fragment (the model must say so) or that must be rejected
     r = rng.random()
     if r < 0.04 and rows:
@@ -268,7 +295,11 @@ def e2e_case(ctx, form, record=True) -> None:
                 ctx.count("e2e:byte-exact")
                 if '="../' in r0["xform"] or " ../" in r0["xform"]:
                     ctx.count("e2e:byte-exact with relative paths")
-                for key, pat in (("setvalue", "<setvalue "), ("jr:count", "jr:count="), ("or_other", "_other")):
+                if any(k.startswith("attribute::") for st_ in form.get("settings") or [] for k in st_):
+                    ctx.count("e2e:byte-exact with attribute:: settings")
+                if any("disabled" in r_ for r_ in form["survey"]):
+                    ctx.count("e2e:byte-exact with disabled column")
+                for key, pat in (("setvalue", "<setvalue "), ("jr:count", "jr:count="), ("or_other", "_other"), ("audit", "<audit/>")):
                     if pat in r0["xform"]:
                         ctx.count("e2e:byte-exact with " + key)
                 if "<output " in r0["xform"]:
